@@ -926,6 +926,19 @@ def gen_thorough(rng, excs: list) -> list[dict]:
     return scns
 
 
+# ============================================================================ source translation
+def pre_gate(chk: Check) -> None:
+    """Regenerate lean/Gen/VecProtoGen.lean from the source text of the tree under test (before the Lean gate) and
+    re-check `generated = model` (Proofs/VecProtoGenEq.lean) and the theorems over the generated definitions
+    (Props/C13.lean, `C13_source_translation_*`): the parent-side call protocol of AsyncPettingZooVecEnv — the guards,
+    the `_state` assignments, the timeout handling, `_raise_if_errors`, the synchronous wrappers, close / close_extras."""
+    import common
+    import py2lean_vecproto
+    common.translation_gate(chk, py2lean_vecproto, "Gen/VecProtoGen.lean",
+                            ["Gen.VecProtoGen", "Proofs.VecProtoGenEq", "Props.C13"],
+                            "call protocol: guards, _state assignments, timeouts, _raise_if_errors, wrappers, close")
+
+
 # ============================================================================ check
 class Ctx:
     """what the probes found out about the tree under test"""
